@@ -361,8 +361,8 @@ def activation_wake_order(ctx, f, prefix=''):
     return bump, sets, wakes
 
 
-def r4_wake_before_callback(ctx):
-    ctx.set_rule('C05.R4')
+def r4_wake_before_callback(ctx, rule='C05.R4'):
+    ctx.set_rule(rule)
     f = ctx.anchor('des::net::module::refs::ModuleRef::activate')
     if not f:
         return
